@@ -256,6 +256,8 @@ def cli_zone_stream(ctx, zones):
 
 
 def run(ctx):
+    from .c10 import other_process_zone
+    other_process_zone(ctx, 3 if ctx.tier == "quick" else 40)
     if ctx.tier == "quick":
         timestamp_stream(ctx, ZONES, 12, 2)
         text_stream(ctx)
